@@ -17,10 +17,13 @@ LEVEL_TEXT = ('static analysis by finite-domain abstract interpretation of call.
               'round(r*2^log2) row by row also on a literal table whose chromosomes are interleaved; (D6) the stated sample sex always wins over '
               'the inferred one in verify_sample_sex (C15 rule); (D5) sex / PAR / ploidy / purity flags reach same-role parameters at every call '
               'site. The call tables also come without any X row and with Y rows only (chr-named), and a `.loc` store keyed by the labels of '
-              'masked rows (index[mask]) on a table whose labels may repeat is a violation. (CLI) the `call` command line(s), through a model of '
-              'argparse built from the declarations in commands.py and the real _cmd_ body interpreted with readers, library step and writers '
-              'stubbed: method, ploidy, purity, reference sex, stated sample sex (verified only when purity < 1), PAR genome, filters and '
-              'thresholds reach do_call as given, defaults included. Exact over the rationals; IEEE rounding error is not modelled.')
+              'masked rows (index[mask]) on a table whose labels may repeat is a violation. (D4d) do_call called five times in one interpreter '
+              "with ploidy / reference sex changing between calls: each result is the oracle's for its own arguments (parameter defaults are "
+              'evaluated once per process, so a mutable default or module-level memo shows); casts to fixed-width integer dtypes wrap unless the '
+              "value's interval fits. (CLI) the `call` command line(s), through a model of argparse built from the declarations in commands.py "
+              'and the real _cmd_ body interpreted with readers, library step and writers stubbed: method, ploidy, purity, reference sex, stated '
+              'sample sex (verified only when purity < 1), PAR genome, filters and thresholds reach do_call as given, defaults included. Exact '
+              'over the rationals; IEEE rounding error is not modelled.')
 TECHNIQUE = "abstract interpretation over finite row-class / flag domains with exact rational terms and intervals; role-flow lint"
 
 GETDF = "cnvlib.call.get_as_dframe_and_set_reference_and_expect_copies"
